@@ -334,6 +334,10 @@ PROPERTIES["C05"] = {
        for k in ("provides", "requires", "conflicts", "obsoletes", "recommends", "suggests", "enhances", "supplements")]
     + [MH("c05_deps_requires_0", inputs="triples with zero items", bounds="empty lists", timeout=300, covers_unsat_ok=["list returned"])]
     + [MH("c05_deps_provides_missing_" + d, inputs="the %s tag of the triple absent" % d, bounds="missing member -> error", timeout=300, covers_unsat_ok=["list returned"]) for d in ("NAME", "FLAGS", "VERSION")]
+    + [MH("c05_scriptlets_all", inputs="all eight scriptlets present: text 2 symbolic characters, flags any u32, two-word interpreter each", timeout=600,
+          bounds="every scriptlet getter returns the values recorded under the tags that carry its scriptlet's name")]
+    + [MH("c05_scriptlet_" + x, inputs="only the %s scriptlet present (text, flags, interpreter symbolic)" % x, timeout=600, bounds="its getter returns exactly those values")
+       for x in ("prein", "postin", "preun", "postun", "pretrans", "posttrans", "preuntrans", "postuntrans")]
     + [MH("c05_fentries_%d_%s" % (n, l), inputs="%d files; every per-file tag present with symbolic contents; sizes %s; decoy package-total tags" % (n, l), timeout=600,
           bounds="get_file_entries: each entry carries its own mtime/size/flags/owner/link/path") for n in (1, 2) for l in ("u32", "long")]
     + [MH("c05_paths_missing_" + m, inputs="one member of the BASENAMES/DIRINDEXES/DIRNAMES triple absent", bounds="missing member -> error", timeout=300,
@@ -376,7 +380,7 @@ _C09_QUICK_PAIRS = {("StringTag", "Int64"), ("Int8", "Int32"), ("Int8", "Int16")
 PROPERTIES["C09"] = {
     "harnesses": [MH("c09_build_" + n, inputs="builder scenario %s: file contents and modification times symbolic" % n, timeout=900,
                      bounds="PackageBuilder .. build() from MIR; both emitted headers against the structural validator; rpmlib(FileCaps) declared when capabilities are present")
-                  for n in ("empty", "files2", "files2_gzip", "files2_xz", "files2_bzip2", "files2_zstd", "utf8name", "scriptlets", "scriptlets_plain", "deps", "caps_first", "caps_last") + tuple("dep_" + k for k in ("requires", "provides", "obsoletes", "conflicts", "recommends", "suggests", "enhances", "supplements"))]
+                  for n in ("empty", "files2", "files2_gzip", "files2_xz", "files2_bzip2", "files2_zstd", "utf8name", "modes", "scriptlets", "scriptlets_plain", "deps", "caps_first", "caps_last") + tuple("dep_" + k for k in ("requires", "provides", "obsoletes", "conflicts", "recommends", "suggests", "enhances", "supplements"))]
     + [MH("c09_one_" + a, inputs="one record of type %s, tag and contents symbolic" % a, bounds="Header::from_entries with one record", timeout=600) for a in _C09V]
     + [MH("c09_pair_%s_%s" % (a, b), tier=("quick" if (a, b) in _C09_QUICK_PAIRS else "thorough"), timeout=900,
           inputs="two records of types %s and %s, tags symbolic (distinct), contents symbolic" % (a, b), bounds="Header::from_entries with two records") for a in _C09V for b in _C09V]
